@@ -60,7 +60,7 @@ def c16(ctx):
     torn = [e for e in events if e["e"] == "Torn"]
     if len(torn) < 100:
         raise Broken("torn-write sweep produced only %d cuts" % len(torn))
-    ctx.log("crash exploration: %d scenarios, %d crash points, %d torn-write cuts" % (len(scen), n - len(scen) - len(torn) - 1,
+    ctx.log("crash exploration: %d scenarios, %d crash points, %d torn-write cuts" % (len(scen), sum(1 for e in events if e["e"] == "Crash"),
                                                                                    len(torn)))
     # 3. TLC decides: required model + the deviations of the known findings
     rejected = []
